@@ -84,6 +84,17 @@ CHECKS["C12"] = ("exploration",
     "custom targets only (routing is target-type independent); regexec as reference for regex filters",
     "DESIGN.md C12")
 
+CHECKS["C16"] = ("exploration",
+    "sequence-numbered messages through threaded custom targets under ThreadSanitizer and ASan; offline "
+    "order / exactly-once / drop-accounting / fini-drain oracle over the recorded logger invocations",
+    "All legal orders of init, set-threaded, thread-start, control, fini and re-init are generated; the loggers "
+    "record (target, sequence); after qb_log_fini the history must be strictly increasing per target, missing "
+    "messages must equal the sum of 'N messages lost' reports, and nothing may arrive after fini returned. TSan "
+    "decides data races between producer/control operations and the logging thread, ASan the lock/record "
+    "lifetimes across stop and re-init.",
+    "one producer; OS scheduling with seeded delays; three known data-race findings in known_findings.json",
+    "DESIGN.md C16")
+
 REASON_PENDING = "check not registered yet in this revision (implementation in progress, see DESIGN.md section 7)"
 
 
